@@ -943,6 +943,19 @@ class Conv:
             return self.power(args[0], args[1])
         if name == 'square' and len(args) == 1:
             return args[0] * args[0]
+        if name == 'outer' and len(args) == 2 and not kw and self.erase_broadcast:
+            # np.outer(a, b) / np.multiply.outer(a, b) is a[:, None] * b[None, :]; broadcast markers are erased
+            return args[0] * args[1]
+        if name in ('multiply', 'add', 'subtract', 'divide', 'true_divide') and len(args) == 2 and not kw:
+            a_, b_ = args
+            if name == 'multiply':
+                return a_ * b_
+            if name == 'add':
+                return a_ + b_
+            if name == 'subtract':
+                return a_ - b_
+            if b_.num:
+                return a_ / b_
         if name in ('log', 'log10', 'log2') and len(args) == 1 and not kw:
             return t.log(name, args[0])
         if name in ('exp', 'abs', 'fabs') and len(args) == 1 and not kw:
